@@ -1,4 +1,5 @@
 """C13 — lazy values are faithful views: typestate of LazyRaw, verbatim channel, escape status."""
+import collections
 from ..facts import callee_is, op_local, op_place, op_int, op_bytes, const_strings, FactError
 from ..analysis import backward_slice, bool_switch_edges, switch_edges, control_deps, return_kinds, forward_derived
 from .c01 import short
@@ -379,6 +380,50 @@ def r13_6(ctx):
                "a path of the block iteration uses the quote bits without consulting the escape carry: a quote escaped by a backslash at the end of the previous block ends the string (wrong span / lost escape status)")
 
 
+def r13_7(ctx):
+    """a failing mutable-view accessor leaves the value untouched: the Raw -> Parsed conversion through `&mut self`
+    happens only under a test that the raw value has the wanted kind"""
+    prog = ctx.prog()
+    n = 0
+    seen = collections.Counter()
+    for f in prog.fns.values():
+        if f.crate != "sonic_rs" or "lazyvalue::owned" not in f.id:
+            continue
+        for b, i, s in f.assigns():
+            lhs = s["lhs"]
+            names = [e[2] for e in lhs[1] if isinstance(e, list) and e[0] == "."]
+            if not ("*" in lhs[1] and names == ["0"] and "OwnedLazyValue" in f.locals[lhs[0]]["ty"] and f.locals[lhs[0]]["ty"].startswith("&mut")):
+                continue
+            n += 1
+            guard = False
+            for bb, t in f.calls():
+                if not callee_is(t, "get_type") or not f.dominates(bb, b):
+                    continue
+                # the kind read feeds a comparison whose true edge dominates the store
+                def from_kind(o):
+                    l = op_local(o)
+                    if l is None:
+                        return False
+                    sl, leaves = backward_slice(f, [l])
+                    return any(lf[0] == "call" and lf[1] == bb for lf in leaves)
+                for cb, ct in f.calls():
+                    if callee_is(ct, "eq", "ne") and any(from_kind(a) for a in ct["args"][:2]):
+                        e = bool_switch_edges(f, ct["dest"][0])
+                        if e and e[0] != e[1]:
+                            edge = e[0] if callee_is(ct, "eq") else e[1]
+                            if f.dominates(edge, b):
+                                guard = True
+                for sb, st in f.terms():
+                    if st["k"] == "switch" and f.dominates(sb, b) and sb != b and from_kind(st["discr"]) and st.get("dty") != "bool":
+                        guard = True
+            owner = prog.fns.get(f.parent_fn, f) if f.parent_fn else f
+            seen[short(owner.id)] += 1
+            ctx.ob("R13.7", f"convert-under-kind-test:{short(owner.id)}#{seen[short(owner.id)]}", guard, f.loc(s.get("ln")),
+                   "the representation of an owned lazy value is replaced through &mut self only on the edge where its kind was tested" if guard else
+                   "the representation of an owned lazy value is replaced through &mut self without a dominating test of its kind: a failing as_array_mut / as_object_mut probe on a scalar rewrites it (the raw number / escaped string text is lost)")
+    ctx.floor("R13.7", "in-place representation changes of OwnedLazyValue", n, 1)
+
+
 def rv_places_local(rv):
     from ..analysis import rv_places
     return rv_places(rv)
@@ -390,4 +435,4 @@ def r13_w(ctx):
     witness_obligations(ctx, "R13.W", [('W3LazyValueBorrows', 'a borrowed LazyValue cannot outlive its input')])
 
 
-RULES = [("R13.1", r13_1), ("R13.2", r13_2), ("R13.3", r13_3), ("R13.4", r13_4), ("R13.5", r13_5), ("R13.6", r13_6), ("R13.W", r13_w)]
+RULES = [("R13.1", r13_1), ("R13.2", r13_2), ("R13.3", r13_3), ("R13.4", r13_4), ("R13.5", r13_5), ("R13.6", r13_6), ("R13.7", r13_7), ("R13.W", r13_w)]
